@@ -24,6 +24,7 @@ let suites : (string * (Sexp.t -> Sexp.t -> Verdict.t)) list = [
   "cenc", S_codec.run_enc;
   "ctopic", S_codec.run_topic;
   "cmsg", S_codec.run_msg;
+  "ctb", S_codec.run_tb;
   "rsub", S_redis.run_rsub;
   "runack", S_redis.run_runack;
   "rqueue", S_redis.run_rqueue;
